@@ -373,10 +373,45 @@ class SymExec:
             if isinstance(s, ast.For):
                 env = self._for(s, env)
                 continue
+            if isinstance(s, ast.While):
+                f = self._while_as_for(s, env)
+                if f is not None:
+                    env = self._for(f, env)
+                    env[f.target.id] = self.ex(f.iter.args[-1], env)
+                    continue
             if isinstance(s, ast.Assert):
                 continue
             raise Unsupported('unsupported statement %s at line %s' % (type(s).__name__, s.lineno))
         return env
+
+    def _while_as_for(self, s, env):
+        """`i = a; while i < n: BODY; i += 1`  ->  `for i in range(a, n): BODY`  (counting loop idiom)"""
+        t = s.test
+        if s.orelse or not (isinstance(t, ast.Compare) and len(t.ops) == 1 and isinstance(t.ops[0], (ast.Lt, ast.NotEq)) and isinstance(t.left, ast.Name)):
+            return None
+        i = t.left.id
+        if i not in env or not s.body:
+            return None
+        last = s.body[-1]
+        from . import util as _u
+        af = _u.aug_form(last)
+        if af is None or af[1] is not ast.Add or src(af[0]) != i or not (isinstance(af[2], ast.Constant) and af[2].value == 1):
+            return None
+        for st in s.body[:-1]:
+            for n in ast.walk(st):
+                if isinstance(n, ast.Name) and n.id == i and isinstance(n.ctx, ast.Store):
+                    return None
+                if isinstance(n, (ast.Break, ast.Continue, ast.Return)):
+                    return None
+        start = env[i]
+        lo = ast.Constant(value=int(start)) if getattr(start, 'is_Integer', False) else None
+        if lo is None:
+            return None
+        f = ast.For(target=ast.Name(id=i, ctx=ast.Store()), iter=ast.Call(func=ast.Name(id='range', ctx=ast.Load()), args=[lo, t.comparators[0]], keywords=[]),
+                    body=s.body[:-1] or [ast.Pass()], orelse=[])
+        ast.copy_location(f, s)
+        ast.fix_missing_locations(f)
+        return f
 
     def _range(self, it, env):
         if not (isinstance(it, ast.Call) and src(it.func) in ('range', 'xrange')):
